@@ -123,3 +123,34 @@ Lemma oneof_example :
   supports G_oneof [4; 2; 1] = true /\ legal G_oneof [1; 2; 4] = true /\
   supports G_oneof [2; 4] = false /\ legal G_oneof [2; 4] = false.
 Proof. vm_compute. repeat split. Qed.
+
+(* ---- a single part ---- *)
+(* the order of the parts does not matter for what the reader accepts either *)
+Theorem accepted_perm G A B : Permutation A B -> accepted G A = accepted G B.
+Proof.
+  intros P. unfold accepted.
+  destruct A as [|a [|a2 A']].
+  - apply Permutation_nil in P. subst B. reflexivity.
+  - apply Permutation_length_1_inv in P. subst B. reflexivity.
+  - destruct B as [|b [|b2 B']].
+    + apply Permutation_sym, Permutation_nil in P. discriminate P.
+    + apply Permutation_sym, Permutation_length_1_inv in P. discriminate P.
+    + apply supports_perm. exact P.
+Qed.
+
+(* an instance with one part is accepted exactly when the rule allows that entity alone
+   (in a schema where no entity is its own supertype) *)
+Theorem accepted_single G e :
+  memb e (supers G e) = false -> memb e (subs G e) = false ->
+  accepted G [e] = legal G [e].
+Proof.
+  intros Hsup Hsub. unfold accepted, legal. cbn [forallb]. rewrite !andb_true_r.
+  assert (D : filter (fun s => memb s [e]) (subs G e) = []).
+  { induction (subs G e) as [|s l IH]; [reflexivity|].
+    cbn [memb existsb] in Hsub. apply orb_false_iff in Hsub. destruct Hsub as [Hs Hl].
+    cbn [filter memb existsb]. rewrite N.eqb_sym, Hs. cbn [orb]. apply IH. exact Hl. }
+  rewrite D.
+  destruct (supers G e) as [|s l] eqn:ES; [reflexivity|].
+  cbn [subset forallb memb existsb]. cbn [memb existsb] in Hsup. apply orb_false_iff in Hsup. destruct Hsup as [Hs _].
+  rewrite N.eqb_sym, Hs. reflexivity.
+Qed.
